@@ -14,3 +14,6 @@ INVARIANT J_EstimateAsModel
 INVARIANT J_SelectorPicksConfigured
 INVARIANT J_RewardsFinite
 INVARIANT J_RewardsInRange
+INVARIANT J_ProximityAsDefined
+INVARIANT J_CompositeAsModel
+INVARIANT J_MaxTimeEstimateSane
